@@ -85,13 +85,35 @@ def es_configs(g, tier):
             yield {"family": "ES", "tag": tag, "rated": 0, "refused": [], "battery": 1, "fw": fw}
 
 
+def firmware_variants():
+    """(DSP1, DSP2, ARM) version triples: the defaults of the simulators plus every small integer constant of the source under test (with
+    neighbours) as ARM / DSP version - a capability rule keyed on a firmware version can only change at such a constant"""
+    from . import env
+    vs = [v for v in env.harvest_ints() if 0 <= v <= 64]
+    return [None] + [(v, v, v) for v in vs] + [(4, 4, v) for v in vs[::3]] + [(v, 0, 19) for v in vs[::5]]
+
+
+def apply_firmware(sim, fam, fw):
+    if fw is None:
+        return
+    base = {"ET": 35016, "DT": 30034}.get(fam)
+    if base is None:
+        return
+    sim.regs[base], sim.regs[base + 1] = fw[0], fw[1]
+    sim.regs[base + (3 if fam == "ET" else 2)] = fw[2]
+
+
 def make_sim(cfg, rnd=None, style="mixed"):
     fam = cfg["family"]
     if fam == "ET":
-        return models.et_sim(serial=serial_for(cfg["tag"]), rated=cfg["rated"], refused_blocks=cfg["refused"],
-                             battery_mode=cfg["battery"], rnd=rnd, style=style)
+        sim = models.et_sim(serial=serial_for(cfg["tag"]), rated=cfg["rated"], refused_blocks=cfg["refused"],
+                            battery_mode=cfg["battery"], rnd=rnd, style=style)
+        apply_firmware(sim, fam, cfg.get("fw_versions"))
+        return sim
     if fam == "DT":
-        return models.dt_sim(serial=serial_for(cfg["tag"]), refused_blocks=cfg["refused"], rnd=rnd, style=style)
+        sim = models.dt_sim(serial=serial_for(cfg["tag"]), refused_blocks=cfg["refused"], rnd=rnd, style=style)
+        apply_firmware(sim, fam, cfg.get("fw_versions"))
+        return sim
     return models.es_sim(serial=serial_for(cfg["tag"]), fw=cfg.get("fw", "02525").encode(), rnd=rnd, style=style)
 
 
